@@ -26,6 +26,8 @@ import (
 // location, if the PackWriter is not used, nothing is written.
 type PackWriter struct {
 	Notify func(plumbing.Hash, *idxfile.Writer)
+	// saved, when set, is called after the pack has been moved into place.
+	saved func()
 
 	fs       billy.Filesystem
 	fr, fw   billy.File
@@ -133,7 +135,13 @@ func (w *PackWriter) Close() error {
 		return w.clean()
 	}
 
-	return w.save()
+	if err := w.save(); err != nil {
+		return err
+	}
+	if w.saved != nil {
+		w.saved()
+	}
+	return nil
 }
 
 func (w *PackWriter) clean() error {
@@ -374,6 +382,8 @@ type ObjectWriter struct {
 	objfile.Writer
 	fs billy.Filesystem
 	f  billy.File
+	// saved, when set, is called after the object has been moved into place.
+	saved func()
 }
 
 func newObjectWriter(fs billy.Filesystem, objectFormat formatcfg.ObjectFormat) (*ObjectWriter, error) {
@@ -399,7 +409,13 @@ func (w *ObjectWriter) Close() error {
 		return err
 	}
 
-	return w.save()
+	if err := w.save(); err != nil {
+		return err
+	}
+	if w.saved != nil {
+		w.saved()
+	}
+	return nil
 }
 
 func (w *ObjectWriter) save() error {
